@@ -195,4 +195,100 @@ theorem pcppMarkerKeep_exact (fname file pre : Str)
       simpa using hne
     rw [e1, e2]
 
+
+/-! ### `_msvc_filter`: the main file is the one named by the first `#line` line -/
+
+def isSuffix (suf s : Str) : Bool := suf.reverse.isPrefixOf s.reverse
+
+/-- `first[first.find('"'):]` (Python: `find` returning -1 gives the last character) -/
+def msvcFname (first : Str) : Str :=
+  match findQuote first with
+  | some i => first.drop i
+  | none => first.drop (first.length - 1)
+
+def msvcMarkerKeep (fname : Str) (line : Str) : Option Bool :=
+  if isPrefix [35, 108, 105, 110, 101] line then some (isSuffix fname line) else none
+
+/-- `_msvc_filter(fp)`: `none` when the `assert first.startswith("#line")` fails -/
+def msvcFilter (ls : List Str) : Option (List Str) :=
+  let first := ls.headD []
+  if isPrefix [35, 108, 105, 110, 101] first then
+    some (segFilter (msvcMarkerKeep (msvcFname first)) true (ls.drop 1))
+  else none
+
+theorem isSuffix_append (a b : Str) : isSuffix b (a ++ b) = true := by
+  simp [isSuffix, List.reverse_append]
+
+theorem isPrefixOf_same_length {a b : Str} (hl : a.length = b.length) (h : a.isPrefixOf b = true) : a = b := by
+  induction a generalizing b with
+  | nil => cases b <;> simp_all
+  | cons x xs ih =>
+    cases b with
+    | nil => simp at hl
+    | cons y ys =>
+      simp only [List.isPrefixOf, Bool.and_eq_true, beq_iff_eq] at h
+      simp only [List.length_cons, Nat.add_right_cancel_iff] at hl
+      rw [h.1, ih hl h.2]
+
+theorem isPrefixOf_append_right : ∀ (a b c : Str), isPrefix a b = true → isPrefix a (b ++ c) = true := by
+  intro a
+  induction a with
+  | nil => intro b c _; simp [isPrefix]
+  | cons x xs ih =>
+    intro b c h
+    cases b with
+    | nil => simp [isPrefix] at h
+    | cons y ys =>
+      simp only [isPrefix, List.isPrefixOf, Bool.and_eq_true, beq_iff_eq, List.cons_append] at h ⊢
+      exact ⟨h.1, ih ys c h.2⟩
+
+/-- a `#line N "file"` line is kept exactly when `file` is the main file: with quote-free
+    file names the suffix test of `_msvc_filter` is an equality test, because the compared
+    text starts at the opening quote -/
+theorem msvcMarkerKeep_exact (main file pre : Str) (hm : ∀ c ∈ main, c ≠ 34) (hf : ∀ c ∈ file, c ≠ 34)
+    (hp : ∀ c ∈ pre, c ≠ 34) (hpre : isPrefix [35, 108, 105, 110, 101] pre = true) :
+    msvcMarkerKeep ([34] ++ main ++ [34, 10]) (pre ++ [34] ++ file ++ [34, 10]) = some (decide (file = main)) := by
+  have hline : isPrefix [35, 108, 105, 110, 101] (pre ++ [34] ++ file ++ [34, 10]) = true := by
+    have : pre ++ [34] ++ file ++ [34, 10] = pre ++ ([34] ++ file ++ [34, 10]) := by simp
+    rw [this]
+    exact isPrefixOf_append_right _ _ _ hpre
+  simp only [msvcMarkerKeep, hline, ↓reduceIte, Option.some.injEq]
+  by_cases hfm : file = main
+  · subst hfm
+    have : pre ++ [34] ++ file ++ [34, 10] = pre ++ ([34] ++ file ++ [34, 10]) := by simp
+    rw [this, isSuffix_append]; simp
+  · simp only [hfm, decide_false]
+    -- compare the reversed texts: both start `\n " rev(name) "`
+    cases hs : isSuffix ([34] ++ main ++ [34, 10]) (pre ++ [34] ++ file ++ [34, 10]) with
+    | false => rfl
+    | true =>
+      exfalso
+      simp only [isSuffix, List.reverse_append, List.reverse_cons, List.reverse_nil, List.nil_append,
+        List.cons_append, List.append_assoc, List.isPrefixOf, Bool.and_eq_true, beq_iff_eq, true_and] at hs
+      -- hs : main.reverse ++ [34] is a prefix of file.reverse ++ 34 :: pre.reverse
+      have key : ∀ (a b : Str) (tail : Str), (∀ c ∈ a, c ≠ 34) → (∀ c ∈ b, c ≠ 34) →
+          (a ++ [34]).isPrefixOf (b ++ 34 :: tail) = true → a = b := by
+        intro a
+        induction a with
+        | nil =>
+          intro b tail _ hb h
+          cases b with
+          | nil => rfl
+          | cons y ys =>
+            simp only [List.nil_append, List.cons_append, List.isPrefixOf, Bool.and_eq_true, beq_iff_eq] at h
+            exact absurd h.1.symm (hb y (by simp))
+        | cons x xs ih =>
+          intro b tail ha hb h
+          cases b with
+          | nil =>
+            simp only [List.cons_append, List.nil_append, List.isPrefixOf, Bool.and_eq_true, beq_iff_eq] at h
+            exact absurd h.1 (ha x (by simp))
+          | cons y ys =>
+            simp only [List.cons_append, List.isPrefixOf, Bool.and_eq_true, beq_iff_eq] at h
+            rw [h.1, ih ys tail (fun c hc => ha c (by simp [hc])) (fun c hc => hb c (by simp [hc])) h.2]
+      have := key main.reverse file.reverse pre.reverse (by simpa using hm) (by simpa using hf) (by simpa using hs)
+      have h2 := congrArg List.reverse this
+      simp only [List.reverse_reverse] at h2
+      exact hfm h2.symm
+
 end Cxx
